@@ -31,7 +31,8 @@ def specs_for(summary, rng):
                 pos.append(["i", {"t_length": 2, "byte_block": 1, "t_dir": 1, "t_type": 0, "off_line": 0, "protocal": 4}[p]])
             else:
                 pos.append(["i", rng.randint(1, 200)])
-        out.append(dict(key=ci["key"], stem=ci["stem"], cls=ci["cls"], op=ctor_oracle.natural_opcode(sp[ci["key"]]["len"]), sa=sa, pos=pos))
+        out.append(dict(key=ci["key"], stem=ci["stem"], cls=ci["cls"], op=ctor_oracle.natural_opcode(sp[ci["key"]]["len"]), sa=sa, pos=pos,
+                        optional=[p for p in params[nreq:]]))
     return out
 
 
@@ -51,6 +52,11 @@ def build_input(summary, seed, tier):
     def variant(a):
         b = dict(a)
         b["pos"] = [[k, (v + 3 if k == "i" and isinstance(v, int) and v not in (512,) else v)] for k, v in a["pos"]]
+        # ... and the optional arguments given explicitly (small values that fit every field; a class that refuses them is skipped)
+        for p in a.get("optional", []):
+            if p in ("data", "dataout", "datain", "blocksize"):
+                break
+            b["pos"] = b["pos"] + [["i", {"alloclen": 40, "alloc_len": 40, "lba": 19, "tl": 3}.get(p, 1)]]
         b["variant"] = True
         return b
     # every class against ITSELF with other argument values (a second command of the same class, built in between)
